@@ -268,6 +268,37 @@ def inplace_case(ctx, idx, rng):
     ctx.ok(f'{op}.only-target-modified', not changed, f'{op} modified {changed}', detail)
 
 
+SOAK_FUNCS = ['pytenet.mps.add_mps', 'pytenet.mpo.add_mpo', 'pytenet.mpo.multiply_mpo', 'pytenet.operation.apply_operator', 'pytenet.operation.vdot',
+              'pytenet.operation.norm', 'pytenet.operation.operator_average', 'pytenet.operation.operator_inner_product',
+              'pytenet.operation.operator_density_average', 'pytenet.operation.compute_right_operator_blocks', 'pytenet.bond_ops.qr',
+              'pytenet.bond_ops.split_matrix_svd', 'pytenet.bond_ops.retained_bond_indices', 'pytenet.mps.split_mps_tensor',
+              'pytenet.mps.merge_mps_tensor_pair', 'pytenet.mpo.merge_mpo_tensor_pair', 'pytenet.mpo.MPO.from_opgraph',
+              'pytenet.opgraph.OpGraph.from_opchains', 'pytenet.opgraph.OpGraph.from_optrees', 'pytenet.opgraph.OpGraph.from_automaton',
+              'pytenet.mpo.MPO.as_matrix', 'pytenet.mps.MPS.as_vector', 'pytenet.krylov.lanczos_iteration', 'pytenet.krylov.arnoldi_iteration']
+
+
+def soak_case(ctx, idx, rng):
+    """The repository's own tests under digest guards: every call of the listed public functions must leave its arguments bit-identical."""
+    from .. import soak
+
+    def make(name):
+        short = name.split('.')[-1]
+
+        def around(orig, *a, **k):
+            ops = [x for x in list(a) + list(k.values()) if not callable(x) or isinstance(x, OBJ)]
+            d0 = [monitor.digest(o) for o in ops]
+            r = orig(*a, **k)
+            d1 = [monitor.digest(o) for o in ops]
+            ctx.ok(f'soak.{short}.arguments-bit-identical', d0 == d1, f'{name} modified an argument when called from the test-suite', {'function': name}, in_situ=True)
+            if isinstance(r, OBJ):
+                al = monitor.aliases(r, ops)
+                ctx.ok(f'soak.{short}.result-shares-no-state', not al, f'result of {name} shares state with an argument: {al[:3]}', {'function': name}, in_situ=True)
+            return r
+        return around
+    ctx.case(('soak', 'repository-test-suite'), nontrivial=True, sample={'functions_guarded': SOAK_FUNCS})
+    soak.run_suite(ctx, [(f, make(f)) for f in SOAK_FUNCS])
+
+
 SPEC = {
     'id': 'C19',
     'rule': ('every public operation that returns a new object or a number is run under (1) deep digests of all operands before/after, (2) write-protection '
@@ -286,6 +317,7 @@ SPEC = {
         Workload('decomposition', decomposition_case, quick=300, thorough=8000),
         Workload('symbolic', symbolic_case, quick=250, thorough=6000),
         Workload('inplace', inplace_case, quick=160, thorough=5000),
+        Workload('suite-soak', soak_case, quick=0, thorough=1, shardable=False),
     ],
     'shards': {'quick': 4, 'thorough': 16},
     'assumptions': ['the alias scanner walks __dict__, lists, tuples, dicts, sets and ndarrays (object arrays included)'],
